@@ -293,6 +293,75 @@ Theorem C12_descs_aligned : forall mro r, build_states mro = Ok r ->
     nth i (r_descs r) "" = desc_opt (effective mro (nth i (r_names r) "")).
 Proof. exact descs_aligned. Qed.
 
+(* ---- instantiation histories and binding ---------------------------- *)
+
+(* Vocabulary (Defs/Model.v, Defs/Spec.v, proof-free):
+     a [world] is the class table as it is NOW -- the __dict__ of every class,
+       which instantiation itself changes: a successful C() sets the attributes
+       state_names and state_descriptions on C -- and the NetworkTables topics;
+     an [event] is  EInst mro cname:  o = C(); setup_tunables(o, cname,
+       "components")  for the class C with that MRO (the instance stays alive),
+       or  EPublish key v:  another client sets a topic;
+     [run_history w h] the outcome of every event of h in turn: [ORaised e],
+       [OBound r names descs] (names/descs: o.state_names / o.state_descriptions
+       read after binding), [OPublished];
+     [class_outcome dicts mro] what the class alone says: the exception of its
+       multiplicity check, or the instance with r_names / r_descs;
+     [published_free dicts] no class holds a STATE under the key state_names or
+       state_descriptions.
+
+   Attempt k of ANY history -- whatever was instantiated before (this class or
+   a base class or a subclass, successfully or not, any number of times, in any
+   order), whatever was bound under whatever name and whatever the topics held
+   -- gives what its class gives: the same verdict as a first attempt on the
+   untouched classes, and on success the class's own two lists. *)
+Theorem C12_history_independent : forall dicts nt h k mro cname,
+  published_free dicts ->
+  nth_error h k = Some (EInst mro cname) ->
+  nth_error (run_history {| w_dicts := dicts; w_nt := nt |} h) k = Some (class_outcome dicts mro).
+Proof. exact history_independent. Qed.
+
+(* .. so every attempt, not just the first, yields an instance iff exactly one
+   effective state is first and at most one is a default state *)
+Theorem C12_history_verdict_iff : forall dicts nt h k mro cname,
+  published_free dicts ->
+  nth_error h k = Some (EInst mro cname) ->
+  ((exists r names descs,
+      nth_error (run_history {| w_dicts := dicts; w_nt := nt |} h) k = Some (OBound r names descs)) <->
+   exactly_one_first (bodies_of dicts mro) /\ at_most_one_default (bodies_of dicts mro)).
+Proof. exact history_verdict_iff. Qed.
+
+(* an attempt that raises leaves classes and topics as they were *)
+Theorem C12_failed_attempt_no_effect : forall w mro cname w' e,
+  step w (EInst mro cname) = (w', ORaised e) -> w' = w.
+Proof. exact failed_attempt_no_effect. Qed.
+
+(* in an accepted module no state is called like an attribute of StateMachine,
+   wherever the object was created *)
+Theorem C12_module_names_free : forall reserved cs ds, define_all reserved cs = Ok ds ->
+  forall d k s, In d ds -> In (k, MState s) d -> k = s_name s /\ ~ In k reserved.
+Proof. exact define_all_names_free. Qed.
+
+(* .. hence for the classes of an accepted module (state_names and
+   state_descriptions being attributes of StateMachine) every history is
+   judged class by class *)
+Theorem C12_history_module : forall reserved cs ds nt h k mro cname,
+  In "state_names" reserved -> In "state_descriptions" reserved ->
+  define_all reserved cs = Ok ds ->
+  nth_error h k = Some (EInst mro cname) ->
+  nth_error (run_history {| w_dicts := ds; w_nt := nt |} h) k = Some (class_outcome ds mro).
+Proof. exact history_module. Qed.
+
+(* binding: setup_tunables puts the lists of THIS machine on its two topics
+   whatever they held before (an earlier machine bound under the same name, a
+   dashboard); every other topic keeps its value *)
+Theorem C12_bind_overwrites : forall nt cname r,
+  dict_get (topic cname "state_names") (bind_machine nt cname r) = Some (r_names r) /\
+  dict_get (topic cname "state_descriptions") (bind_machine nt cname r) = Some (r_descs r) /\
+  forall key, key <> topic cname "state_names" -> key <> topic cname "state_descriptions" ->
+    dict_get key (bind_machine nt cname r) = dict_get key nt.
+Proof. exact bind_overwrites. Qed.
+
 (* ---- non-vacuity --------------------------------------------------- *)
 
 Definition nvp (n : string) : param := {| p_name := n; p_kind := PosOrKw |}.
@@ -432,6 +501,49 @@ Example C12_nv_call_spelling :
   construct nv_reserved (nvd "done" ["self"] None (DStateCall true false)) = Err EInvalidStateName.
 Proof. repeat split; try reflexivity; repeat eexists; vm_compute; reflexivity. Qed.
 
+(* histories.  C0: a (first), b.  C1(C0): a second first state z.  C2(C0):
+   overrides a without the mark.  C3(StateMachine): x (first), y, both
+   documented.  The malformed classes C1 and C2 are attempted three times, before
+   and after their base class; C0 and C3 are bound under the SAME component
+   name, on top of a value a dashboard left there; every attempt says what the
+   class says, and the topics end up holding the lists of the machine bound last *)
+Definition nv_hist_module : list classdef :=
+  [ nv_one [("a", SState (nvd "a" ["self"] (Some "A.a") (DState true false)));
+            ("b", SState (nvd "b" ["self"] None (DState false false)))];
+    {| c_bases := [BClass 0]; c_body := [("z", SState (nvd "z" ["self"] None (DTimed true false)))];
+       c_extra := ["z_duration"] |};
+    {| c_bases := [BClass 0]; c_body := [("a", SState (nvd "a" ["self"] None (DStateCall false false)))];
+       c_extra := [] |};
+    nv_one [("x", SState (nvd "x" ["self"] (Some "X.x") (DState true false)));
+            ("y", SState (nvd "y" ["self"; "tm"] (Some "X.y") DDefault))] ].
+Definition nv_history : list event :=
+  [ EInst [1; 0] "m"; EInst [0] "m"; EInst [1; 0] "m"; EInst [2; 0] "m";
+    EPublish (topic "m" "state_names") ["old_a"; "old_b"; "old_c"];
+    EInst [3] "m"; EInst [2; 0] "other"; EInst [0] "m"; EInst [1; 0] "m"; EInst [0] "m2"; EInst [3] "m" ].
+
+Example C12_nv_history :
+  exists ds rA rX,
+    define_all nv_reserved nv_hist_module = Ok ds /\ published_free ds /\
+    instantiate ds [0] = Ok rA /\ r_names rA = ["a"; "b"] /\ r_descs rA = ["A.a"; ""] /\
+    instantiate ds [3] = Ok rX /\ r_names rX = ["x"; "y"] /\ r_descs rX = ["X.x"; "X.y"] /\
+    run_history {| w_dicts := ds; w_nt := [(topic "m" "state_descriptions", ["stale"])] |} nv_history =
+      [ ORaised MultipleFirst; OBound rA ["a"; "b"] ["A.a"; ""]; ORaised MultipleFirst; ORaised NoFirst;
+        OPublished;
+        OBound rX ["x"; "y"] ["X.x"; "X.y"]; ORaised NoFirst; OBound rA ["a"; "b"] ["A.a"; ""];
+        ORaised MultipleFirst; OBound rA ["a"; "b"] ["A.a"; ""]; OBound rX ["x"; "y"] ["X.x"; "X.y"] ] /\
+    (* instantiation did change the class table: C0 now carries the two attributes *)
+    (exists w, fst (step {| w_dicts := ds; w_nt := [] |} (EInst [0] "m")) = w /\
+       keys (nth 0 (w_dicts w) []) = ["a"; "b"; "state_names"; "state_descriptions"] /\
+       w_nt w = [(topic "m" "state_descriptions", ["A.a"; ""]); (topic "m" "state_names", ["a"; "b"])]).
+Proof.
+  eexists. eexists. eexists. split; [vm_compute; reflexivity|]. split.
+  - intros d k s I J. cbn in I.
+    repeat (destruct I as [I|I]; [subst d; cbn in J;
+      repeat (destruct J as [J|J]; [inversion J; subst; split; discriminate|]); destruct J|]).
+    destruct I.
+  - split; [vm_compute; reflexivity|]. repeat split. eexists. split; [reflexivity|]. vm_compute. split; reflexivity.
+Qed.
+
 (* the adapter really reorders: declared (self, state_tm, tm) *)
 Example C12_nv_adapter :
   exists args, validate_sig (map nvp ["self"; "state_tm"; "tm"]) = Ok args /\
@@ -467,3 +579,9 @@ Print Assumptions C12_two_marked_first_rejected.
 Print Assumptions C12_direct_call.
 Print Assumptions C12_names_exact.
 Print Assumptions C12_descs_aligned.
+Print Assumptions C12_history_independent.
+Print Assumptions C12_history_verdict_iff.
+Print Assumptions C12_failed_attempt_no_effect.
+Print Assumptions C12_module_names_free.
+Print Assumptions C12_history_module.
+Print Assumptions C12_bind_overwrites.
